@@ -21,7 +21,7 @@ func (e *Engine) get(st *State, v ssa.Value) Val {
 	case *ssa.Global:
 		return Val{K: KAddr, Ty: x.Type(), A: &Addr{Global: x, Ty: x.Type().Underlying().(*types.Pointer).Elem()}}
 	case *ssa.Function:
-		return Val{K: KFunc, Ty: x.Type(), Fn: x}
+		return Val{K: KFunc, Ty: x.Type(), Fn: x, T: e.P.reg.fnID(x.String())}
 	case *ssa.Builtin:
 		return Val{K: KFunc, Ty: x.Type(), T: "0"}
 	case *ssa.FreeVar:
@@ -404,7 +404,7 @@ func (e *Engine) instr(st *State, fr *Frame, ins ssa.Instruction) {
 		for _, b := range x.Bindings {
 			env = append(env, e.get(st, b))
 		}
-		e.set(st, x, Val{K: KFunc, Ty: x.Type(), Fn: fn, Env: env})
+		e.set(st, x, Val{K: KFunc, Ty: x.Type(), Fn: fn, Env: env, T: e.alloc(st, types.Typ[types.Int], false)})
 	case *ssa.MakeInterface:
 		v := e.get(st, x.X)
 		e.set(st, x, e.makeIface(st, v, x.X.Type(), x.Type()))
